@@ -202,6 +202,40 @@ func runSpellings(payload []*Sx) *Sx {
 			problems = append(problems, name+":differs")
 		}
 	}
+	// a JSON string may spell any of its characters as an escape (a foreign encoder writes \/ for the solidus of a CIDR range, \u002b for a plus
+	// sign): esc writes EVERY character of a string that way, and each spelling is also tried in that form
+	esc := func(s string) string {
+		var sb strings.Builder
+		sb.WriteByte('"')
+		for _, r := range s {
+			if r == '/' {
+				sb.WriteString(`\/`)
+			} else {
+				fmt.Fprintf(&sb, `\u%04x`, r)
+			}
+		}
+		sb.WriteByte('"')
+		return sb.String()
+	}
+	extnE := func(fn, arg string) string { return `{"__extn":{"fn":` + esc(fn) + `,"arg":` + esc(arg) + `}}` }
+	for i, js := range []string{extnE("decimal", dec.String()), `{"fn":` + esc("decimal") + `,"arg":` + esc(dec.String()) + `}`, esc(dec.String())} {
+		var d types.Decimal
+		typed(fmt.Sprintf("dec-typed-escaped-%d", i), &d, js, func() bool { return d.Equal(dec) })
+	}
+	for i, js := range []string{extnE("ip", ip.String()), `{"fn":` + esc("ip") + `,"arg":` + esc(ip.String()) + `}`, esc(ip.String())} {
+		var d types.IPAddr
+		typed(fmt.Sprintf("ip-typed-escaped-%d", i), &d, js, func() bool { return d.Equal(ip) })
+	}
+	for i, js := range []string{extnE("datetime", dt.String()), esc(dt.String())} {
+		var d types.Datetime
+		typed(fmt.Sprintf("dt-typed-escaped-%d", i), &d, js, func() bool { return d.Equal(dt) })
+	}
+	for i, js := range []string{extnE("duration", du.String()), esc(du.String())} {
+		var d types.Duration
+		typed(fmt.Sprintf("du-typed-escaped-%d", i), &d, js, func() bool { return d.Equal(du) })
+	}
+	check("dec-explicit-escaped", extnE("decimal", dec.String()), dec)
+	check("ip-explicit-escaped", extnE("ip", ip.String()), ip)
 	for i, js := range []string{extn("decimal", dec.String()), `{"fn":"decimal","arg":` + jsonOf(dec.String()) + `}`, jsonOf(dec.String())} {
 		var d types.Decimal
 		typed(fmt.Sprintf("dec-typed-%d", i), &d, js, func() bool { return d.Equal(dec) })
